@@ -141,7 +141,7 @@ func permuteKeys(r *rand.Rand, c *cfg.Config) string {
 }
 
 func checkC08(c *Ctx) error {
-	cfgN, runs, perms := c.Pick(48, 240), c.Pick(16, 40), c.Pick(4, 8)
+	cfgN, runs, perms := c.Pick(48, 420), c.Pick(16, 60), c.Pick(4, 8)
 	c.Rule = fmt.Sprintf("%d configurations (half valid, half invalid with >=6 simultaneous defects per class; 6-8 entries in every mapping the tool ranges over: aliases incl. prefix-related names, functions, parameters, services, fields, files matched by several patterns) x %d fresh processes each, every run in its own working directory with relative paths and a perturbed environment (HOME/GOPATH/GOMODCACHE/GOFLAGS/LANG/TZ/TERM/NO_COLOR unset or garbage, unrelated APP_* variables, PATH with and without a go command, parent directory with and without .go files of the same package) — sha256 of the -o file and of stdout must be constant per configuration; plus %d key permutations of every mapping of each valid configuration — the -o file must not change. A canary program built with the same toolchain shows that map iteration order really varies between these processes. distinct = distinct configuration; non-trivial = every ranged mapping has >=6 entries", cfgN, runs, perms)
 	c.Assumptions = []string{"the schedule explored is the runtime's per-range map randomisation: detection is probabilistic (miss probability per 6-entry map and 16 runs < 1e-9), silence on a correct tree is certain", "stdout is compared with relative -i/-o arguments, since the report echoes them"}
 	w := c.W
